@@ -60,7 +60,9 @@ namespace cnl {
         [[nodiscard]] constexpr auto operator()(input const& from) const
         {
             // TODO: unsigned specialization
-            return static_cast<result>(from + ((from >= 0) ? half() : -half()));
+            // (the sign is tested on the rep: `from >= 0` would re-express `from` at exponent 0,
+            // which overflows for large values of a type with a positive exponent)
+            return static_cast<result>(from + ((_impl::to_rep(from) >= 0) ? half() : -half()));
         }
     };
 
